@@ -159,9 +159,9 @@ Section AnyDiscipline.
   Proof.
     unfold sq_cb. destruct (pend s) as [|n]; [discriminate|].
     destruct (get s) eqn:G.
-    - intros H; injection H as <-. cbn. tauto.
+    - intros H; injection H as <-. cbn. split; auto.
     - destruct (pop (items s)) as [[x r]|]; intros H; injection H as <-; cbn; split; discriminate.
-    - intros H; injection H as <-. cbn. tauto.
+    - intros H; injection H as <-. cbn. split; auto.
   Qed.
 End AnyDiscipline.
 
